@@ -134,7 +134,7 @@ func (b *listBox[T]) setVal(u int) T {
 // argument tuples (as universe indices)
 var listTuples = [][]int{{}, {0}, {1}, {2}, {0, 1}, {1, 0}, {2, 2}, {0, 1, 2}, {2, 1, 0}}
 
-const nInsertTuples = 6
+const nInsertTuples = 8 // up to the first three-value tuple: a block of >= 3 inserted elements has an inner element
 
 var cmpNames = []string{"nat", "rev", "coarse"}
 
